@@ -134,6 +134,13 @@ struct carquet_column_reader {
     /* Retained page data for BYTE_ARRAY value pointers */
     uint8_t* page_data_for_values;
 
+    /* Page buffers replaced while a read call was crossing page boundaries.
+     * BYTE_ARRAY values already handed out by that call still point into
+     * them, so they are kept until the next call on this column reader. */
+    uint8_t** retired_page_data;
+    size_t retired_count;
+    size_t retired_capacity;
+
     /* Current page state for partial reads */
     bool page_loaded;           /* Is a page currently loaded? */
     int32_t page_num_values;    /* Total values in current page */
@@ -177,6 +184,11 @@ carquet_mmap_info_t* carquet_mmap_open(const char* path, carquet_error_t* error)
  * Close memory mapping and release resources.
  */
 void carquet_mmap_close(carquet_mmap_info_t* mmap_info);
+
+/**
+ * Free the page buffers retired by previous read calls (see retired_page_data).
+ */
+void carquet_column_release_retired_pages(carquet_column_reader_t* reader);
 
 /**
  * Check if a page is eligible for zero-copy reading.
